@@ -3,6 +3,8 @@
 (* Kinds flagged by is_monitor have inputs that are *observed* on the implementation and  *)
 (* a constant expected output: a mismatch there is a property violation on the real code. *)
 From VD Require Import Base.Words Model.Layout Model.Queue Extract.QueueIO Extract.QueueMon Extract.OwningIO Extract.MmioIO Model.PciBus Extract.PciBusIO Model.Blk Extract.BlkIO Model.Console Extract.ConsoleIO Extract.ConfigIO Extract.NetIO Extract.ConnMgrIO Extract.VsockIO.
+(* C09: required without Import (qualified use below), so that its short names shadow nothing here *)
+From VD Require Extract.TeardownIO.
 
 Inductive mstate :=
 | MNone
@@ -13,7 +15,8 @@ Inductive mstate :=
 | MConsole (c : option cio)
 | MNet (n : option netst)
 | MConnMgr (c : option cmio)
-| MVsock (s : option vstate).
+| MVsock (s : option vstate)
+| MTeardown (t : option TeardownIO.tio).
 
 Definition bad : list N := [77777].
 
@@ -21,7 +24,7 @@ Definition bad : list N := [77777].
 Definition is_diag (k : N) : bool := (k =? 140).
 
 Definition is_monitor (k : N) : bool :=
-  (k =? 1) || (k =? 2) || (k =? 612) || ((150 <=? k) && (k <? 170)) || (k =? 1950) || (k =? 1951) || mmio_is_monitor k || pci_is_monitor k || blk_is_monitor k || console_is_monitor k || config_is_monitor k || net_is_monitor k || connmgr_is_monitor k || vsock_is_monitor k.
+  (k =? 1) || (k =? 2) || (k =? 612) || ((150 <=? k) && (k <? 170)) || (k =? 1950) || (k =? 1951) || mmio_is_monitor k || pci_is_monitor k || blk_is_monitor k || console_is_monitor k || config_is_monitor k || net_is_monitor k || connmgr_is_monitor k || vsock_is_monitor k || TeardownIO.teardown_is_monitor k.
 
 Definition dir_reads (d : N) : bool := (d =? 0) || (d =? 2).
 Definition dir_writes (d : N) : bool := (d =? 1) || (d =? 2).
@@ -75,6 +78,11 @@ Definition step (st : mstate) (k : N) (ins : list N) : mstate * list N :=
   else if (1700 <=? k) && (k <? 1800) then
     (let s := match st with MVsock s => s | _ => None end in
      let '(s', o) := vsock_step s k ins in (MVsock s', o))
+  (* ---- C09: construction / teardown (kinds 900..999) ---- *)
+  else if (900 <=? k) && (k <? 1000) then
+    (if TeardownIO.teardown_is_monitor k then (st, TeardownIO.teardown_monitor k ins) else
+     let t := match st with MTeardown t => t | _ => None end in
+     let '(t', o) := TeardownIO.teardown_step t k ins in (MTeardown t', o))
   else if k =? 1950 then (st, [b2n (mon_owning ins)])
   else if k =? 1951 then (st, [b2n (mon_input ins)])
   else if (1900 <=? k) && (k <? 1950) then
